@@ -268,3 +268,10 @@ def run(ctx):
     ctx.rule('C20.1-atom-interning', 'map keys and atom values of the wrappers and proplist helpers are built and looked up with Atom::new: its interning tables agree entry by entry', floor=1)
     from ..etf import check_atom_tables
     check_atom_tables(ctx, 'C20.1-atom-interning')
+
+    # dependency: the 32-bit fields (year, offsets ...) are read back with as_integer(), which sees the Integer variant only.
+    # That is sound exactly as long as the encoder writes every value of the i32 range in a small-integer form.
+    ctx.rule('C20.4-i32-fields-on-the-wire', 'the encoder writes INTEGER_EXT / SMALL_INTEGER_EXT for the whole i32 range (so 32-bit wrapper fields come back as Integer, which from_term accepts): rule C15.2-integer-widths re-run here', floor=1)
+    from ..order import SubCtx as _Sub
+    from . import c15 as _c15
+    _c15.run(_Sub(ctx, 'C20.4-i32-fields-on-the-wire', 'c15', allow=('C15.2-integer-widths',)))
